@@ -43,8 +43,12 @@ Proof.
   intros HR Hd. destruct dk as [d|o|]; cbn in *; [left; now apply wf_abs_join|now left|now right].
 Qed.
 
+Definition md_shape (f root : str) (D : str) (md : mdata) : Prop :=
+  md = md0 f root \/ md = md0 f root ++ [(M_PROD_DIR, Some D)].
+
 Lemma res_dir_dk root f dk : wf_abs root = true -> wf_dirk dk = true ->
-  exists md1, res_dir (Some root) (md0 f root) (Some (dir_stored dk)) = (Some (dir_at root dk), md1).
+  exists md1, res_dir (Some root) (md0 f root) (Some (dir_stored dk)) = (Some (dir_at root dk), md1)
+              /\ md_shape f root (dir_at root dk) md1.
 Proof.
   intros HR Hd. destruct dk as [d|o|]; cbn [dir_stored dir_at dir_given wf_dirk] in *.
   - pose proof (wf_abs_join _ _ HR Hd) as HJ. apply wf_abs_parts in HJ. destruct HJ as [_ [_ J3]].
@@ -53,10 +57,12 @@ Proof.
     apply wf_rel_parts in Hd. destruct Hd as [D1 [D2 [D3 [D4 D5]]]].
     unfold res_dir. rewrite D5, D2. cbn [negb andb].
     rewrite starts_macro_plain, isabs_not_none_like by assumption. cbn [negb andb].
-    rewrite path_join_rel by assumption. rewrite resolve_val_plain by assumption. eauto.
+    rewrite path_join_rel by assumption. rewrite resolve_val_plain by assumption.
+    eexists. split; [reflexivity|]. right. reflexivity.
   - apply wf_abs_parts in Hd. destruct Hd as [O1 _].
-    unfold res_dir. rewrite O1, andb_false_r. eauto.
-  - unfold res_dir. change (is_real (Some s_none)) with false. cbn [andb]. eauto.
+    unfold res_dir. rewrite O1, andb_false_r. eexists. split; [reflexivity|]. now left.
+  - unfold res_dir. change (is_real (Some s_none)) with false. cbn [andb].
+    eexists. split; [reflexivity|]. now left.
 Qed.
 
 Lemma res_last_dir_plain md x : has_dollar x = false -> res_last_dir md (Some x) = (Some x, md).
@@ -94,13 +100,32 @@ Lemma ups_at_real D : is_real (Some (ups_at D)) = true.
 Proof.
   unfold ups_at. destruct (str_eqb D s_none); [reflexivity|].
   unfold is_real. rewrite !negb_true_iff, !orb_false_iff. repeat split; apply str_eqb_neq; intro E.
-  - assert (L : length (D ++ c_slash :: s_ups) = length s_none) by now rewrite E.
-    rewrite app_length in L. cbn in L. lia.
+  - assert (L : last_opt (D ++ c_slash :: s_ups) = last_opt s_none) by now rewrite E.
+    rewrite last_opt_app_r in L by discriminate. discriminate.
   - assert (L : last_opt (D ++ c_slash :: s_ups) = last_opt (lit "???")) by now rewrite E.
     rewrite last_opt_app_r in L by discriminate. discriminate.
   - assert (L : last_opt (D ++ c_slash :: s_ups) = last_opt (lit "(none)")) by now rewrite E.
     rewrite last_opt_app_r in L by discriminate. discriminate.
 Qed.
+
+(* the fold inside Product._resolve *)
+Definition rv_step (v : str) (en : macro * val) : str :=
+  let (m, data) := en in
+  match data with Some (c :: r) => apply_macro m (c :: r) v | _ => v end.
+Definition rv_fold (md : mdata) (x : str) : str := fold_left rv_step md x.
+
+Lemma resolve_val_fold md x : x <> [] -> resolve_val md None x = rv_fold md x.
+Proof. intro N. unfold resolve_val. destruct x; [congruence|reflexivity]. Qed.
+
+Lemma rv_fold_cons_some m s md x : s <> [] ->
+  rv_fold ((m, Some s) :: md) x = rv_fold md (apply_macro m s x).
+Proof. intro N. destruct s; [congruence|reflexivity]. Qed.
+
+Lemma rv_fold_cons_empty m md x : rv_fold ((m, Some []) :: md) x = rv_fold md x.
+Proof. reflexivity. Qed.
+
+Lemma rv_fold_app a b x : rv_fold (a ++ b) x = rv_fold b (rv_fold a x).
+Proof. apply fold_left_app. Qed.
 
 (* ups dir stored as UPS_DB / e / ups: resolved against the database of the root *)
 Lemma resolve_val_upsdb f root e md :
@@ -113,31 +138,229 @@ Proof.
   { change (c_slash :: e ++ c_slash :: s_ups) with ([c_slash] ++ e ++ c_slash :: s_ups).
     rewrite !has_dollar_app, He. reflexivity. }
   assert (Hdb : isabs (db_of root) = true) by now apply db_of_abs.
-  destruct (isabs_cons _ Hdb) as [dbr Edb].
-  assert (S1 : forall x, apply_macro M_FLAVOR x (ups_in_db e) = ups_in_db e).
-  { intro x. unfold ups_in_db. cbn [apply_macro]. now apply sub_all_flavor_upsdb. }
-  assert (Core : fold_left (fun v (en : macro * val) =>
-                     let (m, data) := en in
-                     match data with Some (c :: r) => apply_macro m (c :: r) v | _ => v end)
-                   (md0 f root) (ups_in_db e) = db_of root ++ c_slash :: e ++ c_slash :: s_ups).
-  { unfold md0. cbn [fold_left].
-    assert (E1 : match f with [] => ups_in_db e | c :: r => apply_macro M_FLAVOR (c :: r) (ups_in_db e) end
-                 = ups_in_db e) by (destruct f; [reflexivity|apply S1]).
-    replace (match Some f with Some (c :: r) => apply_macro M_FLAVOR (c :: r) (ups_in_db e) | _ => ups_in_db e end)
-      with (ups_in_db e) by (destruct f; [reflexivity|now rewrite S1]).
-    destruct (isabs_cons root) as [rr Er]; [apply wf_abs_parts in HR; tauto|].
-    rewrite Er at 1. cbn [apply_macro].
-    unfold ups_in_db at 1. rewrite sub_prefix_other_upsdb by discriminate.
-    rewrite Edb at 1. cbn [apply_macro]. rewrite <- Edb. apply sub_prefix_upsdb. }
-  unfold resolve_val. change (ups_in_db e) with (c_dollar :: lit "UPS_DB" ++ c_slash :: e ++ c_slash :: s_ups) at 1.
-  cbv iota. change (c_dollar :: lit "UPS_DB" ++ c_slash :: e ++ c_slash :: s_ups) with (ups_in_db e).
-  destruct Hmd as [-> | [D [HD ->]]].
-  - exact Core.
-  - rewrite fold_left_app. cbn [fold_left]. change (fold_left _ (md0 f root) (ups_in_db e)) with
-      (fold_left (fun v (en : macro * val) =>
-                     let (m, data) := en in
-                     match data with Some (c :: r) => apply_macro m (c :: r) v | _ => v end)
-                   (md0 f root) (ups_in_db e)).
-    rewrite Core. destruct (isabs_cons D HD) as [dr ->]. cbn [apply_macro].
-    apply sub_prefix_abs. now apply isabs_app.
+  assert (Hroot : isabs root = true) by (apply wf_abs_parts in HR; tauto).
+  assert (Core : rv_fold (md0 f root) (ups_in_db e) = db_of root ++ c_slash :: e ++ c_slash :: s_ups).
+  { unfold md0.
+    assert (E1 : rv_fold [(M_FLAVOR, Some f)] (ups_in_db e) = ups_in_db e).
+    { destruct f as [|c r]; [reflexivity|]. unfold rv_fold, rv_step. cbn [fold_left apply_macro].
+      unfold ups_in_db. now apply sub_all_flavor_upsdb. }
+    change [(M_FLAVOR, Some f); (M_PROD_ROOT, Some root); (M_UPS_DB, Some (db_of root))]
+      with ([(M_FLAVOR, Some f)] ++ [(M_PROD_ROOT, Some root); (M_UPS_DB, Some (db_of root))]).
+    rewrite rv_fold_app, E1.
+    rewrite rv_fold_cons_some by (destruct root; [discriminate|congruence]).
+    cbn [apply_macro]. unfold ups_in_db at 1. rewrite sub_prefix_other_upsdb by discriminate.
+    rewrite rv_fold_cons_some by (unfold db_of; destruct root; discriminate).
+    cbn [apply_macro]. rewrite sub_prefix_upsdb. reflexivity. }
+  rewrite resolve_val_fold by discriminate.
+  destruct Hmd as [-> | [D [HD ->]]]; [exact Core|].
+  rewrite rv_fold_app, Core.
+  rewrite rv_fold_cons_some by (destruct D; [discriminate|congruence]).
+  cbn [apply_macro rv_fold fold_left]. apply sub_prefix_abs. now apply isabs_app.
+Qed.
+
+Lemma res_ups_interned f root e D md1 dir1 :
+  wf_abs root = true -> has_dollar e = false -> md_shape f root D md1 ->
+  (wf_abs D = true \/ D = s_none) ->
+  exists md2, res_ups dir1 md1 (Some (ups_in_db e))
+              = (Some (db_of root ++ c_slash :: e ++ c_slash :: s_ups), md2).
+Proof.
+  intros HR He Hmd HD. unfold res_ups.
+  change (is_real (Some (ups_in_db e)) && negb (isabs (ups_in_db e))) with true. cbv iota.
+  change (starts_macro (ups_in_db e)) with true. cbn [negb andb].
+  destruct Hmd as [-> | ->].
+  - rewrite (resolve_val_upsdb f root e) by auto. eauto.
+  - destruct HD as [HD | ->].
+    + rewrite (resolve_val_upsdb f root e); [eauto|assumption|assumption|].
+      right. exists D. split; [apply wf_abs_parts in HD; tauto|reflexivity].
+    + (* the directory is the word none: the extra entry is not an absolute path, but a
+         prefix macro still cannot match a text that starts with a slash *)
+      rewrite resolve_val_fold by discriminate. rewrite rv_fold_app.
+      pose proof (resolve_val_upsdb f root e (md0 f root) HR He (or_introl eq_refl)) as C.
+      rewrite resolve_val_fold in C by discriminate. rewrite C.
+      rewrite rv_fold_cons_some by discriminate. cbn [apply_macro rv_fold fold_left].
+      rewrite sub_prefix_abs; [eauto|]. apply isabs_app. now apply db_of_abs.
+Qed.
+
+Lemma res_ups_none dir1 md1 : res_ups dir1 md1 (Some s_none) = (Some s_none, md1).
+Proof. reflexivity. Qed.
+
+(* ------------------------------------------------------------ the table file *)
+
+Lemma res_table_none ex root dir1 ups1 md2 :
+  res_table ex root dir1 ups1 md2 (Some s_none) = (Some s_none, ups1).
+Proof. reflexivity. Qed.
+
+Lemma res_table_abs ex root dir1 ups1 md2 t : isabs t = true ->
+  res_table ex root dir1 ups1 md2 (Some t) = (Some t, ups1).
+Proof. intro H. unfold res_table. now rewrite H, andb_false_r. Qed.
+
+(* a relative table file under a real ups dir U: U/t if that exists, else root/t if that
+   exists, else U/t *)
+Definition table_choice (ex : str -> bool) (root U t : str) : str :=
+  let nt := U ++ c_slash :: t in
+  if ex nt then nt else if ex (root ++ c_slash :: t) then root ++ c_slash :: t else nt.
+
+Lemma res_table_rel ex root dir1 U md2 t :
+  wf_abs root = true -> wf_rel t = true ->
+  is_real (Some U) = true -> U <> [] -> ends_slash U = false -> has_dollar U = false ->
+  res_table ex (Some root) dir1 (Some U) md2 (Some t) = (Some (table_choice ex root U t), Some U).
+Proof.
+  intros HR Ht HU NU EU DU.
+  pose proof (wf_abs_nonempty _ HR) as NR.
+  apply wf_abs_parts in HR. destruct HR as [R1 [R2 R3]].
+  apply wf_rel_parts in Ht. destruct Ht as [T1 [T2 [T3 [T4 T5]]]].
+  unfold res_table. rewrite T5, T2. cbn [negb andb].
+  rewrite starts_macro_plain by assumption. cbn [negb]. rewrite HU.
+  rewrite path_join_rel by assumption.
+  destruct (isabs_cons root R1) as [rr Er].
+  assert (J : path_join root t = root ++ c_slash :: t) by now apply path_join_rel.
+  unfold table_choice.
+  destruct (ex (U ++ c_slash :: t)) eqn:E1.
+  - rewrite resolve_val_plain; [reflexivity|]. rewrite has_dollar_app, DU. cbn. exact T4.
+  - rewrite Er at 1. rewrite <- Er. rewrite J.
+    destruct (ex (root ++ c_slash :: t)) eqn:E2.
+    + rewrite resolve_val_plain; [reflexivity|]. rewrite has_dollar_app, R3. cbn. exact T4.
+    + rewrite resolve_val_plain; [reflexivity|]. rewrite has_dollar_app, DU. cbn. exact T4.
+Qed.
+
+Lemma res_last_table_plain md t : has_dollar t = false -> res_last_table md (Some t) = Some t.
+Proof. intro H. unfold res_last_table. now rewrite H, andb_false_r. Qed.
+
+Lemma ups_at_props D : (wf_abs D = true \/ D = s_none) ->
+  ups_at D <> [] /\ ends_slash (ups_at D) = false /\ has_dollar (ups_at D) = false.
+Proof.
+  intros [H | ->]; [|repeat split; discriminate].
+  unfold ups_at. destruct (str_eqb D s_none); [repeat split; discriminate|].
+  apply wf_abs_parts in H. destruct H as [_ [_ H3]]. repeat split.
+  - destruct D; discriminate.
+  - change (D ++ c_slash :: s_ups) with (D ++ (c_slash :: s_ups)). now rewrite ends_slash_app.
+  - rewrite has_dollar_app, H3. reflexivity.
+Qed.
+
+(* ------------------------------------------------------------ resolvePaths on the four stored shapes *)
+
+Lemma table_choice_plain ex root U t :
+  has_dollar root = false -> has_dollar U = false -> has_dollar t = false ->
+  has_dollar (table_choice ex root U t) = false.
+Proof.
+  intros H1 H2 H3. unfold table_choice.
+  destruct (ex _); [|destruct (ex _)]; rewrite has_dollar_app; cbn; try rewrite H1; try rewrite H2; exact H3.
+Qed.
+
+Definition prod_of (n v f : str) (d t db u : val) : product :=
+  {| p_name := n; p_version := v; p_flavor := f; p_dir := d; p_table := t; p_db := db; p_ups := u |}.
+
+(* ups, relative table: the table of the ups directory, or one named relative to the stack *)
+Lemma resolve_S1 ex n v f root dk t :
+  wf_abs root = true -> wf_dirk dk = true -> wf_rel t = true ->
+  resolve_paths ex (prod_of n v f (Some (dir_stored dk)) (Some t) (Some (db_of root)) (Some s_ups))
+  = prod_of n v f (Some (dir_at root dk))
+            (Some (table_choice ex root (ups_at (dir_at root dk)) t))
+            (Some (db_of root)) (Some (ups_at (dir_at root dk))).
+Proof.
+  intros HR Hd Ht. unfold resolve_paths, prod_of. rewrite stack_root_db by assumption.
+  cbn [p_dir p_ups p_table p_name p_flavor p_db p_version].
+  change (md_init _ (Some root)) with (md0 f root).
+  destruct (res_dir_dk root f dk HR Hd) as [md1 [E1 S]]. rewrite E1. cbn [fst snd].
+  pose proof (dir_at_cases root dk HR Hd) as HC.
+  destruct (res_ups_ups (dir_at root dk) md1 HC) as [md2 E2]. rewrite E2. cbn [fst snd res_table0].
+  destruct (ups_at_props _ HC) as [U1 [U2 U3]].
+  rewrite res_table_rel by (auto using ups_at_real). cbn [fst snd].
+  rewrite res_last_dir_plain by now apply dir_at_plain. cbn [fst snd].
+  rewrite res_last_table_plain; [reflexivity|].
+  apply table_choice_plain; try assumption.
+  - apply wf_abs_parts in HR. tauto.
+  - apply wf_rel_parts in Ht. tauto.
+Qed.
+
+(* ups, absolute table: kept *)
+Lemma resolve_S2 ex n v f root dk T :
+  wf_abs root = true -> wf_dirk dk = true -> wf_abs T = true ->
+  resolve_paths ex (prod_of n v f (Some (dir_stored dk)) (Some T) (Some (db_of root)) (Some s_ups))
+  = prod_of n v f (Some (dir_at root dk)) (Some T) (Some (db_of root))
+            (Some (ups_at (dir_at root dk))).
+Proof.
+  intros HR Hd HT. unfold resolve_paths, prod_of. rewrite stack_root_db by assumption.
+  cbn [p_dir p_ups p_table p_name p_flavor p_db p_version].
+  change (md_init _ (Some root)) with (md0 f root).
+  destruct (res_dir_dk root f dk HR Hd) as [md1 [E1 S]]. rewrite E1. cbn [fst snd].
+  pose proof (dir_at_cases root dk HR Hd) as HC.
+  destruct (res_ups_ups (dir_at root dk) md1 HC) as [md2 E2]. rewrite E2. cbn [fst snd res_table0].
+  apply wf_abs_parts in HT. destruct HT as [T1 [T2 T3]].
+  rewrite res_table_abs by assumption. cbn [fst snd].
+  rewrite res_last_dir_plain by now apply dir_at_plain. cbn [fst snd].
+  now rewrite res_last_table_plain.
+Qed.
+
+(* table held in the database: UPS_DB / e / ups, relative table *)
+Definition ups_db_at (root e : str) : str := db_of root ++ c_slash :: e ++ c_slash :: s_ups.
+
+Lemma ups_db_at_props root e : wf_abs root = true -> has_dollar e = false ->
+  isabs (ups_db_at root e) = true /\ ups_db_at root e <> [] /\
+  ends_slash (ups_db_at root e) = false /\ has_dollar (ups_db_at root e) = false.
+Proof.
+  intros HR He. pose proof (db_of_abs root HR) as A.
+  apply wf_abs_parts in HR. destruct HR as [R1 [R2 R3]]. unfold ups_db_at. repeat split.
+  - now apply isabs_app.
+  - destruct (db_of root); discriminate.
+  - change (db_of root ++ c_slash :: e ++ c_slash :: s_ups)
+      with (db_of root ++ (c_slash :: e) ++ (c_slash :: s_ups)).
+    rewrite !app_assoc. now rewrite ends_slash_app.
+  - unfold db_of. rewrite !has_dollar_app, R3. cbn. rewrite has_dollar_app, He. reflexivity.
+Qed.
+
+Lemma resolve_S3 ex n v f root dk e t :
+  wf_abs root = true -> wf_dirk dk = true -> has_dollar e = false -> wf_rel t = true ->
+  resolve_paths ex (prod_of n v f (Some (dir_stored dk)) (Some t) (Some (db_of root)) (Some (ups_in_db e)))
+  = prod_of n v f (Some (dir_at root dk))
+            (Some (table_choice ex root (ups_db_at root e) t))
+            (Some (db_of root)) (Some (ups_db_at root e)).
+Proof.
+  intros HR Hd He Ht. unfold resolve_paths, prod_of. rewrite stack_root_db by assumption.
+  cbn [p_dir p_ups p_table p_name p_flavor p_db p_version].
+  change (md_init _ (Some root)) with (md0 f root).
+  destruct (res_dir_dk root f dk HR Hd) as [md1 [E1 S]]. rewrite E1. cbn [fst snd].
+  pose proof (dir_at_cases root dk HR Hd) as HC.
+  destruct (res_ups_interned f root e (dir_at root dk) md1 (Some (dir_at root dk)) HR He S HC) as [md2 E2].
+  rewrite E2. cbn [fst snd res_table0]. fold (ups_db_at root e).
+  destruct (ups_db_at_props root e HR He) as [U0 [U1 [U2 U3]]].
+  rewrite res_table_rel by (auto using isabs_real). cbn [fst snd].
+  rewrite res_last_dir_plain by now apply dir_at_plain. cbn [fst snd].
+  rewrite res_last_table_plain; [reflexivity|].
+  apply table_choice_plain; try assumption.
+  - apply wf_abs_parts in HR. tauto.
+  - apply wf_rel_parts in Ht. tauto.
+Qed.
+
+(* no table file *)
+Lemma resolve_S4 ex n v f root dk :
+  wf_abs root = true -> wf_dirk dk = true ->
+  resolve_paths ex (prod_of n v f (Some (dir_stored dk)) (Some s_none) (Some (db_of root)) (Some s_none))
+  = prod_of n v f (Some (dir_at root dk)) (Some s_none) (Some (db_of root)) (Some s_none).
+Proof.
+  intros HR Hd. unfold resolve_paths, prod_of. rewrite stack_root_db by assumption.
+  cbn [p_dir p_ups p_table p_name p_flavor p_db p_version].
+  change (md_init _ (Some root)) with (md0 f root).
+  destruct (res_dir_dk root f dk HR Hd) as [md1 [E1 S]]. rewrite E1. cbn [fst snd].
+  rewrite res_ups_none. cbn [fst snd res_table0]. rewrite res_table_none. cbn [fst snd].
+  rewrite res_last_dir_plain by now apply dir_at_plain. reflexivity.
+Qed.
+
+(* ------------------------------------------------------------ makeProduct on a block *)
+
+Lemma mk_product_id ex n v f d t db u :
+  truthy d = true -> truthy t = true -> mk_product ex n v f d t db u = prod_of n v f d t db u.
+Proof. intros Hd Ht. unfold mk_product, prod_of. now rewrite Hd, Ht. Qed.
+
+Lemma make_product_block ex r f i root :
+  wf_abs root = true -> alookup f (vf_info r) = Some i ->
+  make_product ex r f (Some root) (Some (db_of root))
+  = Some (resolve_paths ex
+            (mk_product ex (val_str (vf_name r)) (val_str (vf_version r)) f
+               (info_get i k_productDir) (info_get i k_table_file) (Some (db_of root))
+               (info_get i k_ups_dir))).
+Proof.
+  intros HR E. unfold make_product. rewrite E.
+  assert (T : truthy (Some (db_of root)) = true) by (unfold db_of; destruct root; reflexivity).
+  rewrite T, andb_false_r. reflexivity.
 Qed.
